@@ -106,23 +106,32 @@ _CONFIG_DEFAULTS = None
 
 
 _LOCK_TYPES = (type(threading.Lock()), type(threading.RLock()))
+_SYNC_TYPES = _LOCK_TYPES + (threading.Condition, threading.Event, threading.Semaphore)
 _PYRO_MODS = None
 _swept = []      # (kind, container, key, original)
+_patched = []    # (module, attribute, original)
 
 
 def _pyro_modules():
-    global _PYRO_MODS
-    if _PYRO_MODS is None:
-        _PYRO_MODS = [m for n, m in sorted(sys.modules.items()) if n == "Pyro5" or n.startswith("Pyro5.")]
-    return _PYRO_MODS
+    return [m for n, m in sorted(sys.modules.items()) if (n == "Pyro5" or n.startswith("Pyro5.")) and m is not None]
 
 
 def _sweep_real_locks(sched):
     """A real lock created when a Pyro5 module is imported or a class/decorator is defined (module global, class
     attribute, closure cell, default argument) would be held for real across a simulated pre-emption and deadlock the
     baton. Replace every such lock reachable from the Pyro5 modules by a simulated one for the duration of the run."""
-    def sim_for(lk):
-        return S.SimLock(sched, reentrant=isinstance(lk, _LOCK_TYPES[1]))
+    def sim_for(v):
+        if isinstance(v, _LOCK_TYPES):
+            return S.SimLock(sched, reentrant=isinstance(v, _LOCK_TYPES[1]))
+        if isinstance(v, threading.Condition):
+            return S.SimCondition(sched)
+        if isinstance(v, threading.Event):
+            e = S.SimEvent(sched)
+            e._flag = v.is_set()
+            return e
+        if isinstance(v, threading.Semaphore):
+            return S.SimSemaphore(sched, v._value, isinstance(v, threading.BoundedSemaphore))
+        return None
 
     seen = set()
 
@@ -135,7 +144,7 @@ def _sweep_real_locks(sched):
                 v = cell.cell_contents
             except ValueError:
                 continue
-            if isinstance(v, _LOCK_TYPES):
+            if isinstance(v, _SYNC_TYPES):
                 _swept.append(("cell", cell, None, v))
                 cell.cell_contents = sim_for(v)
             elif callable(v) and hasattr(v, "__code__"):
@@ -146,12 +155,12 @@ def _sweep_real_locks(sched):
 
     for m in _pyro_modules():
         for name, v in list(vars(m).items()):
-            if isinstance(v, _LOCK_TYPES):
+            if isinstance(v, _SYNC_TYPES):
                 _swept.append(("attr", m, name, v))
                 setattr(m, name, sim_for(v))
             elif isinstance(v, type) and getattr(v, "__module__", "").startswith("Pyro5"):
                 for an, av in list(vars(v).items()):
-                    if isinstance(av, _LOCK_TYPES):
+                    if isinstance(av, _SYNC_TYPES):
                         _swept.append(("attr", v, an, av))
                         setattr(v, an, sim_for(av))
                     f = getattr(av, "__func__", av)
@@ -181,13 +190,22 @@ def install(sched, net, uuid_seed=0, line_codes=()):
     _sweep_real_locks(sched)
     tf = S.ThreadingFacade(sched)
     tm = S.TimeFacade(sched)
-    for m in _TIME_MODS:
-        m.time = tm
-    for m in _THREADING_MODS:
-        m.threading = tf
     sel = N.SelectorsFacade(net)
-    for m in _SELECTOR_MODS:
-        m.selectors = sel
+    # every Pyro5 module attribute that is the time / threading / selectors module, or one of their blocking primitives
+    # imported by name, is replaced (found dynamically: a changed tree may import them in other modules than today's)
+    by_identity = [(threading, tf), (_time, tm), (_selectors, sel),
+                   (threading.Lock, tf.Lock), (threading.RLock, tf.RLock), (threading.Event, tf.Event),
+                   (threading.Condition, tf.Condition), (threading.Semaphore, tf.Semaphore),
+                   (threading.BoundedSemaphore, tf.BoundedSemaphore), (threading.Timer, tf.Timer),
+                   (_real_sleep, tm.sleep), (_time.time, tm.time), (_time.monotonic, tm.monotonic),
+                   (_time.perf_counter, tm.perf_counter)]
+    for m in _pyro_modules():
+        for name, v in list(vars(m).items()):
+            for real, sim in by_identity:
+                if v is real:
+                    _patched.append((m, name, v))
+                    setattr(m, name, sim)
+                    break
     SV.uuid = UUIDFacade(random.Random(uuid_seed))
     SU.create_socket = N.make_create_socket(net)
     ST._client_disconnect_lock = S.SimLock(sched)
@@ -238,12 +256,9 @@ def uninstall():
     global _saved
     S.uninstall()
     marshalguard.uninstall()
-    for m in _TIME_MODS:
-        m.time = _time
-    for m in _THREADING_MODS:
-        m.threading = threading
-    for m in _SELECTOR_MODS:
-        m.selectors = _selectors
+    while _patched:
+        m, name, v = _patched.pop()
+        setattr(m, name, v)
     SV.uuid = _uuid
     SV._get_exposed_members = _real_get_exposed_members
     SU.create_socket = _real_create_socket
